@@ -349,6 +349,50 @@ func main() {
 			runHistory(w, h, bw)
 		}
 		bw.Flush()
+	case "script":
+		// scripted histories: like replay, but the votes of every block are filled in from the tracked
+		// CometBFT sets (ABSENT lines name the validators that miss the block); writes the completed ops file
+		fs := flag.NewFlagSet("script", flag.ExitOnError)
+		inPath := fs.String("in", "script.txt", "script input")
+		opsPath := fs.String("ops", "ops.txt", "ops output")
+		obsPath := fs.String("obs", "obs.txt", "obs output")
+		fs.Parse(os.Args[2:])
+		f, err := os.Open(*inPath)
+		if err != nil {
+			panic(err)
+		}
+		hs, err := ReadHistories(f)
+		if err != nil {
+			panic(err)
+		}
+		of, _ := os.Create(*opsPath)
+		bf, _ := os.Create(*obsPath)
+		ow, bw := bufio.NewWriter(of), bufio.NewWriter(bf)
+		for _, h := range hs {
+			r := &Runner{W: w, Out: bw}
+			h.G.MinSignedDec = minSignedDec(h.G)
+			WriteGenesis(ow, h.G)
+			if err := r.Start(h.G); err != nil {
+				panic(err)
+			}
+			for _, b := range h.Blocks {
+				if r.Halt {
+					break
+				}
+				abs := map[int]bool{}
+				for _, k := range b.Absent {
+					abs[k] = true
+				}
+				b.Votes = r.VotesFor(r.N.Height+1, abs)
+				WriteBlock(ow, b)
+				r.Step(b)
+			}
+			fmt.Fprintln(ow, "END")
+			fmt.Fprintln(bw, "END")
+			r.Close()
+		}
+		ow.Flush()
+		bw.Flush()
 	case "twin":
 		twinMain(w, os.Args[2:])
 	case "restart":
